@@ -262,7 +262,8 @@ META = {
                  "paths, the rotation flag rises only through an authenticated packet, forged traffic is invisible to the final state and every "
                  "genuine packet of the current or next generation opens (keyphase_* theorems; the flag-before-authentication order is "
                  "refuted); tied by statement-order extraction and by a differential run on the real wrapper keys obtained through the "
-                 "public Map / stream::crypto API."),
+                 "public Map / stream::crypto API. At the dc stream receiver every error path that would reset the stream authenticates the packet "
+                 "first (statement shapes of recv/state.rs re-extracted and bridged; the receiver model and its theorems belong to C20)."),
         "note": ("Trusted: Lean kernel (standard axioms), tools/extract.py, vh-dc harness, python oracles. AEAD/HMAC are assumed ideal (exercised, "
                  "not verified); hash-table internals, cleaner thread, capacity eviction of the map are not modelled."),
         "technique": "Lean 4 round-trip / byte-coverage / no-state-change theorems + regenerated-constant bridges + differential correspondence incl. exhaustive single-byte tampering",
